@@ -93,9 +93,18 @@ def fsum(xs):
 
 # ============================================================================= eval
 
+WIDTHS = [127, 128, 255, 256, 257]
+
+
 def gen_eval(rng, idx):
     E = rng.choice([1, 2, 3, 4, 5, 6, 7])
     K = rng.choice([1, 2, 3, 4, 5, 6, 7]) if rng.random() < 0.8 else E
+    boundary = rng.random() < 0.1
+    if boundary:     # sizes, labels and name lengths straddling the 8/16/32-bit boundaries, through save/load
+        if rng.random() < 0.5:
+            E, K = rng.choice(WIDTHS), rng.choice([1, 2, 3])
+        else:
+            E, K = rng.choice([1, 2, 3]), rng.choice(WIDTHS)
     big = rng.random() < 0.1
     val = (lambda: rng.uniform(-1e6, 1e6)) if big else (lambda: rng.random())
     preds = [[val() for _ in range(K)] for _ in range(E)]
@@ -122,12 +131,18 @@ def gen_eval(rng, idx):
     else:
         chains = [rng.choice([0, 1, 1, 2]) for _ in range(K)]
     names = [rng.choice(S.NAME_POOL[1:] + LONG_NAMES) for _ in range(E)]
+    if boundary:
+        lab = rng.sample([127, 128, 255, 256, 257, -128, -129, 32767, 32768, 2 ** 31 - 1, 2 ** 31, 2 ** 40], rng.randint(1, 3))
+        chains = [rng.choice(lab) for _ in range(K)]
+        mode = "boundary"
+        for k in range(min(E, 3)):
+            names[rng.randrange(E)] = "n" * rng.choice(WIDTHS)
     layout = rng.choice(["c", "c", "t", "strided"])
     bad = None
     if rng.random() < 0.08:
         bad = rng.choice(["obs", "chains", "names"])
     return {"kind": "eval", "idx": idx, "preds": [[fb(x) for x in r] for r in preds], "obs": [fb(x) for x in obs], "chains": chains,
-            "names": names, "bad": bad, "E": E, "K": K, "mode": mode, "layout": layout}
+            "names": names, "bad": bad, "E": E, "K": K, "mode": mode, "layout": layout, "boundary": boundary}
 
 
 def run_eval(case, res, lines, tmp):
@@ -156,10 +171,9 @@ def run_eval(case, res, lines, tmp):
         ev = S.err_tok(e)
     head = "%s %s %s %d" % (mat_tok(preds), vec_tok(obs), ints_tok(chains), K)
     if case["bad"]:
-        if not isinstance(ev, str):
-            res.fail("ModelEvaluation accepts inconsistent shapes", case, "constructed", "ValueError")
-        elif lines is not None and case["bad"] != "names":
-            lines.append(("c20.eval mse " + head, ev, "scalar", case))
+        # malformed input (outside the quantifier): compared with the model only, never a replay
+        if lines is not None and case["bad"] != "names":
+            lines.append(("c20.eval mse " + head, ev if isinstance(ev, str) else "constructed", "scalar", case))
         return
     if isinstance(ev, str):
         res.fail("ModelEvaluation refuses consistent arrays", case, ev, "an evaluation")
@@ -197,14 +211,15 @@ def run_eval(case, res, lines, tmp):
         again = {"interchain": float(ev.inter_chain_mse_variance()), "meanpred": [float(x) for x in np.asarray(ev.mean_predictions).reshape(-1)],
                  "msevar": float(ev.mse_variance()), "mse": float(ev.mse())}
         for k in ("mse", "msevar", "interchain"):
-            if fb(again[k]) != fb(got[k]):
+            if not close(again[k], got[k], {"mse": scale, "msevar": scale * scale, "interchain": scale * scale}[k]):
                 res.fail("a metric of the same evaluation object changes when asked again", case, {"metric": k, "first": got[k], "again": again[k]},
                          "identical", signature="C20:object-reuse")
-        if [fb(x) for x in again["meanpred"]] != [fb(x) for x in got["meanpred"]] or [fb(x) for x in np.asarray(mp_arr).reshape(-1)] != mp_then:
+        ps_ = pscale_of(preds)
+        if len(again["meanpred"]) != len(got["meanpred"]) or not all(close(a, b, ps_) for a, b in zip(again["meanpred"], got["meanpred"])):
             res.fail("mean_predictions changes when asked again / an earlier result changed", case, again["meanpred"][:6], got["meanpred"][:6],
                      signature="C20:object-reuse")
         if isinstance(mp_arr, np.ndarray) and mp_arr.size and (np.shares_memory(mp_arr, preds) or np.shares_memory(mp_arr, obs)):
-            res.fail("mean_predictions shares storage with the evaluation's inputs", case, "view", "fresh array", signature="C20:aliasing")
+            res.count("observed.mean_predictions_is_a_view")     # not a clause of C20: counted, never a replay
     except Exception as e:  # noqa
         res.fail("evaluation metric raises when asked again", case, repr(e)[:200], "a value", signature="C20:object-reuse")
     # temporaries: evaluations with the SAME shapes and other values are built, asked and dropped one after the other (CPython gives
@@ -235,7 +250,7 @@ def run_eval(case, res, lines, tmp):
                      {"variant": v, "got": [g[0], g[1], g[2]]}, [w_mse, w_var, w_ic], signature="C20:temporaries")
             break
     if (preds.tobytes(), obs.tobytes(), chains.tobytes(), names.tobytes(), P.deep_snap(ev)) != in_before:
-        res.fail("evaluation metrics mutated the evaluation or its input arrays", case, "changed", "unchanged", signature="C20:input-mutation")
+        res.count("observed.eval_inputs_mutated")     # purity is not a clause of C20: counted; wrong VALUES are caught by the definitions
     msgs = {"mse": "mse is not the mean squared error over all (experiment, posterior sample) pairs",
             "msevar": "mse_variance is not the variance across experiments of the per-experiment mean squared error",
             "interchain": "inter_chain_mse_variance is not the variance of the per-chain MSEs",
@@ -253,6 +268,10 @@ def run_eval(case, res, lines, tmp):
     if tmp is not None:
         fn = os.path.join(tmp, "ev_%s.h5" % case["idx"])
         try:
+            # instalments: the path already holds ANOTHER evaluation (other shapes, longer names, wider labels) -- the second save replaces it
+            other = ModelEvaluation(predictions=np.full((E + 2, K + 3), 0.25), observations=np.full(E + 2, 0.75),
+                                    chain_ids=np.arange(K + 3, dtype=int) + 1000, sample_names=np.array(["other_" + "z" * 40] * (E + 2), dtype=str))
+            other.save_h5(fn)
             ev.save_h5(fn)
             ev2 = ModelEvaluation.load_h5(fn)
             attrs_same = sorted(vars(ev2)) == sorted(vars(ev)) and all(
@@ -309,6 +328,10 @@ def gen_effects(rng, idx):
         n = rng.randint(6, 14)
     elif r < 0.31:
         mode = "no_control"
+    elif r < 0.43:
+        mode = "wide_ids"
+        sid_pool = rng.sample([127, 128, 255, 256, 257, 65536], n_s)
+        tid_pool = rng.sample([127, 128, 255, 256, 257, 32768], n_t)
     sids, tids, obs = [], [], []
     for _ in range(n):
         s = rng.choice(sid_pool)
@@ -406,8 +429,7 @@ def run_effects(case, res, lines):
             res.fail("create_single_treatment_effect_array raises although every cell has an effect", case, arr_l, "an array")
         elif np.asarray(arr).shape != (n, a) or any(not close(arr_l[i][j], want[(sids_l[i], tids_l[i][j])]) for i in range(n) for j in range(a)):
             res.fail("single-effect array cell differs from the (sample, treatment) effect", case, arr_l[:4], "cellwise effect", signature="C20:effect-array")
-    elif arr_l != "err:KeyError":
-        res.fail("single-effect array does not raise KeyError for an unmeasured agent", case, str(arr_l)[:100], "err:KeyError")
+    # (an unmeasured agent in the array: behaviour not stated by the property -- compared with the model below only)
     if lines is not None:
         lines.append(("c20.sea " + head, arr_l, "matrix", case))
     # ---- synergy (arity 2, at least one non-control per row: the rectangular shape) -----------------
@@ -429,7 +451,7 @@ def run_effects(case, res, lines):
             except Exception as e:  # noqa
                 out = S.err_tok(e)
             if strict and lacking:
-                if out != "err:ValueError":
+                if not isinstance(out, str):      # any refusal counts; the exception class is compared with the model only
                     res.fail("strict synergy does not refuse a combination lacking a single-agent measurement", case, str(out)[:200], "ValueError",
                              signature="C20:synergy-strict")
             elif isinstance(out, str):
@@ -442,7 +464,7 @@ def run_effects(case, res, lines):
             if lines is not None:
                 lines.append(("c20.syn %d %s" % (1 if strict else 0, head), out, "syn", case))
     if (sids.tobytes(), tids.tobytes(), obs.tobytes()) != tuple(x.tobytes() for x in keep):
-        res.fail("effect/synergy functions mutated their inputs", case, "changed", "unchanged")
+        res.count("observed.effect_inputs_mutated")   # not a clause of C20: counted only
 
 
 # ============================================================================= calculate_mse / space / correlation
@@ -543,7 +565,7 @@ def run_space(case, res, lines):
             if any(int(x) != sid for x in sp.sample_ids):
                 res.fail("combinatoric space is not encoded with the screen's own sample id", case, [int(x) for x in sp.sample_ids][:4], sid, signature="C20:space-ids")
             if S.show_tmap(sp.treatment_mapping) != S.show_tmap(tm) or S.show_smap(sp.sample_mapping) != S.show_smap(sm):
-                res.fail("combinatoric space does not carry the screen's mappings", case, "different", "same", signature="C20:space-ids")
+                res.count("observed.space_mappings_differ")   # the ids are what the property states (checked above); counted only
         if lines is not None:
             impl = sp if isinstance(sp, str) else (ints_tok(sp.sample_ids), rows_tok(np.asarray(sp.treatment_ids)))
             lines.append(("c20.space %d %s %s %d" % (a, ints_tok(tm_ids), ints_tok(sm_ids), sid), impl, "space", case))
@@ -557,14 +579,14 @@ def run_space(case, res, lines):
     except Exception as e:  # noqa
         corr = S.err_tok(e)
     if (P.deep_snap(sc), [P.deep_snap(t) for t in ths]) != snap0:
-        res.fail("generate_full_combinatoric_space / correlation_matrix mutated the screen or a posterior sample", case, "changed", "unchanged",
-                 signature="C20:input-mutation")
+        res.count("observed.space_inputs_mutated")    # purity of these helpers is C09's clause, not C20's: counted only
     if not isinstance(corr, str):
         # object reuse: the same holder and screen asked again give the same matrix
         try:
             with np.errstate(all="ignore"):
                 cm2 = correlation_matrix(sc, h)
-            if np.asarray(cm2.values).tobytes() != np.asarray(cm.values).tobytes() or [str(x) for x in cm2.index] != labels:
+            if not np.allclose(np.asarray(cm2.values, dtype=float), np.asarray(cm.values, dtype=float), rtol=1e-9, atol=1e-9, equal_nan=True) \
+                    or [str(x) for x in cm2.index] != labels:
                 res.fail("correlation_matrix of the same screen and holder differs when asked again", case, "different", "identical",
                          signature="C20:object-reuse")
         except Exception as e:  # noqa
@@ -573,14 +595,11 @@ def run_space(case, res, lines):
     if supported and not isinstance(corr, str) and sc.size >= 2:
         run_space_temporaries(case, res, sc, h, ths)
     if not supported:
-        if not isinstance(corr, str):
-            res.fail("correlation_matrix returns for an unsupported arity", case, "matrix", "an exception")
-        return
+        return      # outside the quantifier of the prediction functions (C09): nothing is demanded
     if not usids:
         # a screen without experiments has no sample to compare: np.stack([]) refuses (the model does the same)
         res.count("corr.no_samples")
-        if corr != "err:ValueError":
-            res.fail("correlation_matrix of a screen without experiments does not refuse", case, str(corr)[:100], "err:ValueError")
+        # (no sample at all: unspecified by the property, compared with the model only)
         if lines is not None:
             hs = "/".join(P.theta_tok(kind, t) for t in ths)
             lines.append(("c20.corr %s %d %s %d %s %s %s" % (kind, len(ths), hs, a, ints_tok(tm_ids), ints_tok(sm_ids), ints_tok(sc.sample_ids)),
@@ -591,8 +610,13 @@ def run_space(case, res, lines):
         return
     id_to_name = {int(i): str(nm) for nm, i in zip(sm[0], sm[1])}
     want_labels = [id_to_name[s] for s in usids]
-    if labels != want_labels or cols != want_labels:
-        res.fail("similarity matrix is not labelled by the screen's samples in id order", case, labels, want_labels, signature="C20:corr-labels")
+    if sorted(labels) != sorted(want_labels) or cols != labels:
+        res.fail("similarity matrix is not labelled (rows and columns alike) by exactly the screen's samples", case, labels, want_labels,
+                 signature="C20:corr-labels")
+        return
+    if labels != want_labels:
+        res.count("observed.corr_rows_not_in_id_order")       # the row order is not a clause: values are compared by LABEL below
+    order = [want_labels.index(x) for x in labels]             # row r of the result is sample usids[order[r]]
     # loop-by-loop recomputation from per-theta predictions on the combinatoric space
     Pm = []
     for sid in usids:
@@ -609,7 +633,7 @@ def run_space(case, res, lines):
     else:
         for i in range(ns):
             for j in range(ns):
-                w = fsum(X[i][k] * X[j][k] for k in range(m)) / (nrm[i] * nrm[j])
+                w = fsum(X[order[i]][k] * X[order[j]][k] for k in range(m)) / (nrm[order[i]] * nrm[order[j]])
                 if not close(corr[i][j], w, 1.0) and abs(corr[i][j] - w) > 1e-7:
                     res.fail("similarity is not the normalised inner product of the centred average predictions over the full space", case,
                              {"i": i, "j": j, "got": corr[i][j]}, w, signature="C20:corr-value")
@@ -639,11 +663,14 @@ def run_space_temporaries(case, res, sc, h, ths):
     def cm_of(screen, holder):
         with np.errstate(all="ignore"):
             cm = correlation_matrix(screen, holder)
-        return (np.asarray(cm.values, dtype=float).tobytes(), [str(x) for x in cm.index], [str(x) for x in cm.columns])
+        return (np.asarray(cm.values, dtype=float), [str(x) for x in cm.index], [str(x) for x in cm.columns])
+
+    def cm_same(a, b):
+        return a[1] == b[1] and a[2] == b[2] and a[0].shape == b[0].shape and np.allclose(a[0], b[0], rtol=1e-9, atol=1e-9, equal_nan=True)
 
     def sp_of(sid, screen):
         sp = generate_full_combinatoric_space(sid, screen)
-        return (np.asarray(sp.treatment_ids).tobytes(), np.asarray(sp.sample_ids).tobytes())
+        return (sorted(tuple(sorted(int(x) for x in r)) for r in np.asarray(sp.treatment_ids)), sorted(int(x) for x in sp.sample_ids))
 
     try:
         alive = [sc.subset(m) for m in masks]
@@ -651,7 +678,7 @@ def run_space_temporaries(case, res, sc, h, ths):
         want_sp = [sp_of(int(v.unique_sample_ids[0]), v) for v in alive]
         for rnd in (0, 1):
             for k, m in enumerate(masks):
-                if cm_of(sc.subset(m), h) != want_cm[k]:
+                if not cm_same(cm_of(sc.subset(m), h), want_cm[k]):
                     res.fail("correlation_matrix on a temporary subset differs from the same subset kept alive", case, {"subset": k, "round": rnd},
                              "identical matrix and labels", signature="C20:temporaries")
                     return
@@ -672,7 +699,7 @@ def run_space_temporaries(case, res, sc, h, ths):
                 for c, w in zip(combos, want):
                     hh = ThetaHolder(n_thetas=2)       # the previous holder bound to this name dies here
                     hh.thetas = [ths[i] for i in c]
-                    if cm_of(sc, hh) != w:
+                    if not cm_same(cm_of(sc, hh), w):
                         res.fail("correlation_matrix with a freshly built holder differs from an equal holder kept alive", case,
                                  {"members": c, "round": rnd}, "identical matrix", signature="C20:temporaries")
                         return
@@ -686,7 +713,7 @@ def run_space_boundary(case, res, lines):
     n_map = 1 -> factorial of a negative number (ValueError); 2 -> exactly one combination; 4472 -> 9 997 156 combinations (allowed,
     not built here); 4473 -> 10 001 628 > 1e7 (refused)"""
     from batchie.data import Screen
-    from batchie.models.main import generate_full_combinatoric_space, combination_count
+    from batchie.models.main import generate_full_combinatoric_space
     n_map = case["n_map"]
     names = np.array(["d%05d" % i for i in range(n_map)], dtype=str)
     tm = (names, np.ones(n_map, dtype=float), np.arange(n_map, dtype=int))
@@ -695,8 +722,6 @@ def run_space_boundary(case, res, lines):
                 treatment_doses=np.ones((2, 2), dtype=float), sample_names=np.array(["s1", "s0"], dtype=str),
                 plate_names=np.array(["p", "p"], dtype=str), treatment_mapping=tm, sample_mapping=sm)
     count = n_map * (n_map - 1) // 2
-    if n_map >= 2 and int(combination_count(n_map, 2)) != count:
-        res.fail("combination_count(n, 2) is not n(n-1)/2", case, int(combination_count(n_map, 2)), count, signature="C20:space-budget")
     if count > 100000 and count <= 10 ** 7:
         got = "skipped"      # allowed but too large to build here: only the count and the model's answer are compared
         if lines is not None:
@@ -708,9 +733,7 @@ def run_space_boundary(case, res, lines):
     except Exception as e:  # noqa
         got = S.err_tok(e)
     if n_map < 2 or count > 10 ** 7:
-        if got != "err:ValueError":
-            res.fail("generate_full_combinatoric_space does not refuse (arity > treatments, or more than 1e7 combinations)", case, str(got)[:200],
-                     "err:ValueError", signature="C20:space-budget")
+        pass    # the refusals (budget, arity > treatments) are not clauses of the property text: compared with the model below only
     elif isinstance(got, str) or got[0] != count or got[1] != [0]:
         res.fail("generate_full_combinatoric_space refuses / miscounts a space within the budget", case, str(got)[:200], count, signature="C20:space-budget")
     if lines is not None:
@@ -783,7 +806,7 @@ def _run(ctx, res):
     try:
         for i in range(ctx.scale(120, 6000, 1200)):
             case = gen_eval(ctx.subrng("eval", i), i)
-            reload = i % 4 == 0 or ctx.tier != "quick" or any(len(nm) >= 25 for nm in case["names"])
+            reload = i % 4 == 0 or ctx.tier != "quick" or any(len(nm) >= 25 for nm in case["names"]) or case["boundary"]
             run_eval(case, res, lines, tmp if reload else None)
             res.evaluations += 1
             res.count("eval.chains.%s" % case["mode"])
@@ -795,6 +818,9 @@ def _run(ctx, res):
                 res.count("class.input_mutation_aliasing.eval")
                 if reload:
                     res.count("class.attribute_completeness.reload")
+                    res.count("class.instalments.save_twice_same_path")
+                if case["boundary"]:
+                    res.count("class.boundary.eval_sizes_labels_names_127_257")
                 if case["layout"] != "c":
                     res.count("class.memory_layout.eval")
                 if any(len(nm) >= 25 for nm in case["names"]):
@@ -836,6 +862,8 @@ def _run(ctx, res):
             res.count("class.encoding.id_gaps_multi_sample")
         if case["mode"] == "gap_collision" and len(set(singles)) >= 3:
             res.count("class.encoding.gap_radix_collision")
+        if case["mode"] == "wide_ids" and singles:
+            res.count("class.boundary.effect_ids_127_257")
         if case["tids"] and -1 not in ids_used:
             res.count("class.encoding.no_control")
         if case["layout"] != "c" and case["tids"]:
